@@ -41,7 +41,7 @@ CLAIMED["C09"] = dict(
 
 CLAIMED["C05"] = dict(
     engine="P", technique="grammar-based generation of valid programs plus single-fault mutation (Hypothesis), oracle = documented rule table, evaluated in-process through the public diplomat_core API and cross-checked on the diplomat-tool binary",
-    text="Both directions of the gate: programs built valid-by-construction for a drawn feature profile must lower cleanly; each of ~60 (rule x position) single-fault mutants must be rejected with an error whose context names the planted Type::method (or type). Exploration over programs x profiles x faults.",
+    text="Both directions of the gate: programs built valid-by-construction for a drawn feature profile must lower cleanly; each of ~70 (rule x position) single-fault mutants (incl. callback / trait / DiplomatWrite placement and self kinds) must be rejected with an error whose context names the planted Type::method (or type). Exploration over programs x profiles x faults.",
     note="Trusted: the fault table transcribed from the book and the property statement; dv-probe (a thin JSON wrapper over hir::TypeContext::from_syn). Rules on which the docs are silent are not asserted.",
     ref="DESIGN.md §2 C05")
 
@@ -71,7 +71,7 @@ CLAIMED["C11"] = dict(
 
 CLAIMED["C07"] = dict(
     engine="P", technique="grammar-based program generation (Hypothesis) with static translation validation: parsed Dart/Kotlin native declarations vs a reference C-ABI model",
-    text="Generated programs in the Dart and Kotlin profiles; every @ffi.Native signature, ffi.Struct/Union class, JNA interface function and Structure/Union class (incl. getFieldOrder) is parsed, resolved recursively and compared with the model's C ABI of the function / repr(C) struct: arity, order, width, signedness, float kind, pointer vs by-value, record shapes. Exploration; declarations are validated as text, not executed.",
+    text="Generated programs in the Dart and Kotlin profiles; every @ffi.Native signature, ffi.Struct/Union class, JNA interface function, Structure/Union class (incl. getFieldOrder) and JNA callback interface (Runner_*.invoke) is parsed, resolved recursively and compared with the model's C ABI of the function / repr(C) struct: arity, order, width, signedness, float kind, pointer vs by-value, record shapes. Exploration; declarations are validated as text, not executed.",
     note="Trusted: the two text parsers, the reference ABI model (validated against compiled code by C01), the fixed table of accepted scalar spellings. No Dart/Kotlin toolchain exists in the sandbox.",
     ref="DESIGN.md §2 C07")
 
@@ -83,14 +83,14 @@ CLAIMED["C08"] = dict(
 
 CLAIMED["C04"] = dict(
     engine="P", technique="model-based property testing over generated method signatures (Hypothesis): reference outlives model cross-validated by rustc, compared with the tool's borrow map and the edge lists emitted by managed backends",
-    text="Generated signatures (up to 4 method lifetimes + impl lifetimes, arbitrary declared bounds, implied bounds from references and definitions, 'static, anonymous inputs, optional and nested borrowing structs): the tool's borrow map must equal, per output lifetime, the set of input slots the outlives closure requires (both inclusions). The closure itself is validated against rustc on sampled signatures (one probe function per ordered lifetime pair). JS and Dart edge lists must contain the expected inputs. Exploration.",
-    note="Trusted: rustc as the arbiter of outlives; the signature renderer; the JS/Dart edge-list parsers. 'static inputs are don't-care. The definition-site gap (known finding) is excluded by spelling all bounds and probed separately.",
+    text="Generated signatures (up to 4 method lifetimes + impl lifetimes, arbitrary declared bounds, implied bounds from references and definitions, 'static, anonymous inputs, optional and nested borrowing structs): the tool's borrow map must equal, per output lifetime, the set of input slots the outlives closure requires (both inclusions). The closure itself is validated against rustc on sampled signatures (one probe function per ordered lifetime pair). JS, Dart and Kotlin edge lists (per output lifetime) and nanobind keep_alive indices (per argument) must contain the expected inputs; for methods returning an opaque the generated JS is also executed under a stub wasm module and the private edge arrays of the returned object (read through the V8 inspector) must hold every required input object, including opaque fields of by-value struct parameters. Exploration.",
+    note="Trusted: rustc as the arbiter of outlives; the signature renderer; the JS/Dart/Kotlin/nanobind edge-list parsers; node's inspector for the executed-JS leg. 'static inputs are don't-care. The definition-site gap (known finding) is excluded by spelling all bounds and probed separately.",
     ref="DESIGN.md §2 C04")
 
 CLAIMED["C01"] = dict(
     engine="P", technique="end-to-end differential property testing: generated bridge compiled by the real proc macro and called through the generated C headers with generated argument vectors (gcc, ASan+UBSan)",
-    text="Generated programs over the documented type grammar with generated call vectors; Rust bodies log arguments bit-exactly and return drawn values, a generated C driver calls through the generated headers. Every call must reach Rust exactly once with the drawn arguments and return exactly the drawn value (incl. Option/Result arm and raw is_ok byte, write-out strings, &mut slice mutation); struct/enum layouts and result sizes seen by C must equal those rustc gives the macro's output; primitive/pointer/view parameter types in prototypes must be the documented spellings. Exploration.",
-    note="Trusted: gcc 12, rustc, the canonical value serialisers on the three sides (Python expectation, Rust logger, C printer). x86-64 SysV only. Callbacks are not part of the round trip.",
+    text="Generated programs over the documented type grammar with generated call vectors; Rust bodies log arguments bit-exactly and return drawn values, a generated C driver calls through the generated headers. Every call must reach Rust exactly once with the drawn arguments and return exactly the drawn value (incl. Option/Result arm and raw is_ok byte, write-out strings into Rust-owned and fixed caller buffers, &mut slice mutation); callback arguments (C function + heap data + destructor) must observe the values Rust passes, Rust must receive what they answer, and each destructor must run exactly once; a third of the programs carry abi_renames; struct/enum layouts and result sizes seen by C must equal those rustc gives the macro's output; primitive/pointer/view parameter types in prototypes must be the documented spellings. Exploration.",
+    note="Trusted: gcc 12 / clang 14 (-O0 and -O2, chosen per program), rustc, the canonical value serialisers on the three sides (Python expectation, Rust logger, C printer). x86-64 SysV only.",
     ref="DESIGN.md §2 C01")
 CLAIMED["C10"] = dict(
     engine="P", technique="metamorphic + end-to-end property testing of twin spellings (Option/DiplomatOption, Result/DiplomatResult, Self/named) through the generated C header",
@@ -100,8 +100,8 @@ CLAIMED["C10"] = dict(
 
 CLAIMED["C02"] = dict(
     engine="P", technique="end-to-end differential property testing through the generated C++ class API (g++ -std=c++17 and -std=c++20, ASan+UBSan), with an almost-valid UTF-8 generator for the rejection clause",
-    text="Generated programs and call vectors as in C01, driven through the C++ classes only (optional, string_view, span, struct/enum wrappers, references, unique_ptr, diplomat::result, std::string). Arguments must arrive unchanged, returns must come back with identical contents and arm, under both language standards; ill-formed UTF-8 in a direct &str parameter must yield Utf8Error and no Rust invocation. Exploration.",
-    note="Trusted: g++ 12, the C++ driver generator's model of the class API (a wrong model fails to compile rather than pass). Owned slices, callbacks, operators and lists of strings (known finding) are not driven from C++.",
+    text="Generated programs and call vectors as in C01, driven through the C++ classes only (optional, string_view, span, struct/enum wrappers, references, unique_ptr, diplomat::result, std::string). Arguments must arrive unchanged, returns must come back with identical contents and arm, under both language standards, with g++ and clang++ at -O0/-O2; std::function callbacks (stateful lambdas, exactly-once destruction), owned slices, and in half of the programs namespaces, type/method renames and abi_renames are part of the drive; ill-formed UTF-8 in a direct &str parameter must yield Utf8Error and no Rust invocation. Exploration.",
+    note="Trusted: g++ 12, the C++ driver generator's model of the class API (a wrong model fails to compile rather than pass). Operators and lists of strings (known finding, probed separately) are not driven from C++; callbacks use the shapes the C++ runtime converts.",
     ref="DESIGN.md §2 C02")
 
 TODO_REASON = "check not built yet in this revision of /verif (planned, see DESIGN.md §2); not claimed until it is silent on the unchanged tree and kills its mutants"
